@@ -10,6 +10,14 @@ E1_NOTE = ("Trusted base: the harness's reference model and comparison code (sim
            "Sampling, not proof: a clean batch is evidence only. The simulated disk does not model loss of unsynced writes.")
 
 CLAIMED = {
+ "C02": dict(level="exploration", engine="E1-history-simulator",
+   text="Seeded deterministic simulation of WriteAttribute/DeleteAttribute histories (1-300 calls, several objects, compact<->dense crossings, size-changing overwrites) with Close/OpenForWrite restarts placed inside the history; after every restart the attribute map read back must equal a map model; failures are minimised and replayed twice before being reported.",
+   technique="deterministic simulation: seeded attribute histories with restarts vs map model over a simulated disk",
+   ref="DESIGN.md section 4 C02"),
+ "C03": dict(level="exploration", engine="E1-history-simulator",
+   text="Seeded deterministic simulation of namespace-building histories (groups, datasets, hard/soft/external links, dense groups, duplicates, missing parents, capacity exhaustion) followed by a restart; the reopened tree must equal a tree model and the two rejections the statement demands must be errors.",
+   technique="deterministic simulation: seeded namespace histories with capacity exhaustion vs tree model over a simulated disk",
+   ref="DESIGN.md section 4 C03"),
  "C01": dict(level="exploration", engine="E1-history-simulator",
    text="Seeded deterministic simulation of write/restart/read histories (all dataset types x ranks x layouts x superblock versions x data classes) against an executable reference model; every failing run is minimised and replayed twice in fresh processes before it is reported.",
    technique="deterministic simulation: seeded write/restart/read histories vs reference model over a simulated disk",
